@@ -182,7 +182,11 @@ func scenarioExhaustive(t *traceWriter, rng *rand.Rand) {
 				from = uint64(c.stored)
 			}
 			proof := mkProof(rng, br, from, uint64(c.submitted), c.pc)
-			cp := signNote(cpText(l.origin, uint64(c.submitted), br.root(uint64(c.submitted))), key.signer)
+			subRoot := br.root(uint64(c.submitted))
+			if c.diffRoot && c.submitted == 0 {
+				subRoot = randHash(rng, 32) // every branch has the same empty tree: a log can still sign another root beside size 0
+			}
+			cp := signNote(cpText(l.origin, uint64(c.submitted), subRoot), key.signer)
 			// ground truth for the split-view monitor
 			s.truth(l, trunk, seq(1, uint64(N+1)))
 			if c.diffRoot {
@@ -349,6 +353,24 @@ func (w *world) genRequest(ls *logState) (uint64, []byte, [][]byte, string) {
 		return atLeast + uint64(rng.Intn(int(b.size()-atLeast)+1))
 	}
 	class := rng.Intn(100)
+	if (!ls.has || stored == 0) && rng.Intn(6) == 0 {
+		// the size-0 placeholder: Update has a branch of its own for it.  The empty tree's root, or any other 32 bytes a
+		// log chooses to sign beside size 0; another text for the same tree head; a proof between two empty trees
+		root := [][]byte{cur.root(0), cur.root(0), randHash(rng, 32), cur.root(min64(1, maxSz))}[rng.Intn(4)]
+		ext := []string{}
+		if rng.Intn(2) == 0 {
+			ext = append(ext, fmt.Sprintf("Timestamp: %d", rng.Int63()))
+		}
+		proof := [][]byte{}
+		if rng.Intn(4) == 0 {
+			proof = [][]byte{randHash(rng, 32)}
+		}
+		old := uint64(0)
+		if rng.Intn(8) == 0 {
+			old = 1
+		}
+		return old, signNote(cpText(l.origin, 0, root, ext...), l.key.signer), proof, "zero"
+	}
 	switch {
 	case class < 30: // honest next / refresh
 		size := pickSize(cur, stored)
